@@ -655,13 +655,14 @@ class StructType(DataType):
         raise ValueError(f"Unexpected tuple {obj} with StructType")
 
     def _match_fields_by_name(self, row):
-        """A Row holding the fields of this struct in another order (e.g. a
-        Row built from keyword arguments, which sorts them): match its
-        values to the fields by name, as the type verifier does."""
+        """A Row whose own field names are not the names of this struct in
+        this order (e.g. a Row built from keyword arguments, which sorts
+        them, or a Row with more fields than the struct): take the value of
+        each field of the struct by name, as the type verifier does."""
         fields = getattr(row, "__fields__", None)
         if (fields is not None and list(fields) != list(self.names)
                 and len(set(fields)) == len(fields)
-                and sorted(fields) == sorted(self.names)):
+                and all(n in fields for n in self.names)):
             return create_row(self.names, [row[n] for n in self.names])
         return row
 
